@@ -344,7 +344,10 @@ class MuxSocketTransportSink(ClientMessageSink):
       The ClientChannelSinkStack associated with the tag's response.
     """
     tup = self._tag_map.pop(tag, None)
-    self._tag_pool.release(tag)
+    if tup is not None:
+      # Only tags that are actually outstanding go back to the pool, whatever
+      # tag the peer names (reserved, never issued or already answered).
+      self._tag_pool.release(tag)
     return tup
 
   @abstractmethod
